@@ -128,7 +128,7 @@ class Ctx:
 
 DEFAULT_WEIGHTS = {
     "direct": 5, "reuse": 2, "object": 5, "callback": 3, "returned": 2, "variable": 2, "list": 2, "dict": 1,
-    "field": 2, "recursion": 2, "mutual": 2, "nested": 1, "static": 1, "param_object": 1, "returned_object": 1, "try": 1, "kwcallback": 3,
+    "field": 2, "recursion": 2, "mutual": 2, "nested": 1, "static": 1, "param_object": 1, "returned_object": 1, "try": 1, "kwcallback": 3, "twocand": 4,
 }
 
 
@@ -148,6 +148,7 @@ class Gen:
         self.class_forms = {}      # class name -> references ({form, file, name}) through which it was instantiated
         self.form_cache = {}
         self.js = False            # restrict to what has a JavaScript counterpart (see generate_js)
+        self.cand_role = {}        # callee qual -> which of two candidate values of a callback it is (first / second)
         self.value_access = {}     # function qual -> access form through which it was taken as a value
         self.building = []
 
@@ -163,7 +164,9 @@ class Gen:
             dirs = ()
             if i > 0 and self.package and rng.random() < 0.6:
                 dirs = (f"pk_{self.tag}",)
-            self.mods.append(Mod(f"m{i}_{self.tag}", dirs, i))
+            # the first letter varies so that the alphabetical order of the files is independent of the import direction (lian visits
+            # units in path order: a base class may live in a file that sorts before or after the file of its subclass)
+            self.mods.append(Mod(f"{rng.choice('amz')}{i}_{self.tag}", dirs, i))
         main = self.mods[0]
         if self.entry_mode == "method":
             f = Func(f"main_{self.tag}", [], main)
@@ -545,6 +548,107 @@ class Gen:
             self.value_access[g.qual] = gform.ref
             self.call_line(ctx, f"{hexpr}({gexpr}, {self.arg(ctx)})", self.nsite(hform, h.qual))
 
+    def e_twocand(self, ctx, depth):
+        """a callback argument that holds TWO candidate values at the call: chosen on the two branches of an if/else, a bound
+        method of an object that is an instance of the base or of the overriding subclass, an element of a two-element list / dict
+        picked by a parameter, a closure returned by a factory with two returns. The driver function is called twice (flag 1 and
+        0), so both candidates really run: the callee's call `cb(v)` must have an edge to each of them."""
+        rng = self.rng
+        how = rng.choice(["branch-assignment", "bound-method-of-base-or-override", "list-element", "dict-element", "factory-with-two-returns"])
+        t = self.pick_mod(ctx.mod)
+        app = Func(self.name("apply"), ["cb", "v"], t)
+        t.decls.append(app)
+        cbsite = self.site(f"callback-with-two-candidate-values/{how}")
+        app.body.add("r = cb(v)", cbsite)
+        app.ret = "r"
+        pick = Func(self.name("pick"), ["flag"], t)
+        b = pick.body
+        pctx = Ctx(t, b, pick)
+
+        def two_functions():
+            out = []
+            for which in ("first", "second"):
+                g, gexpr, gform = self.plain_callee(pctx, depth, "tc")
+                self.value_access[g.qual] = gform.ref
+                self.cand_role[g.qual] = which
+                out.append(gexpr)
+            return out
+        if how == "branch-assignment":
+            fa, fb = two_functions()
+            b.add("if flag > 0:")
+            b.ind += 1; b.add(f"h = {fa}"); b.ind -= 1
+            b.add("else:")
+            b.ind += 1; b.add(f"h = {fb}"); b.ind -= 1
+            arg = "h"
+        elif how == "bound-method-of-base-or-override":
+            hid = self.name("h")
+            kb = Class(self.name("K"), t)
+            ks = Class(self.name("K"), t, [(kb.name, kb)])
+            ks.base_form = {"form": "local", "file": t.relpath, "name": kb.name}
+            for c in (kb, ks):
+                t.decls.append(c)
+                self.classes.append(c)
+            init = Func("__init__", ["self", "a"], t, cls=kb)
+            init.body.add(f"self.fa_{hid} = a")
+            init.ret = None
+            kb.methods.append(init)
+            for c, which in ((kb, "first"), (ks, "second")):
+                m = Func(f"hook_{hid}", ["self", "x"], t, cls=c)
+                m.ret = "1" if c is kb else "2"
+                c.methods.append(m)
+                self.cand_role[m.qual] = which
+            b.add("if flag > 0:")
+            b.ind += 1
+            self.class_forms.setdefault(kb.name, []).append({"form": "local", "file": t.relpath, "name": kb.name})
+            cs1 = self.site("constructor", f"{kb.name}.__init__", recv=kb.name)
+            b.add(f"o = {kb.name}(1)", cs1)
+            b.ind -= 1
+            b.add("else:")
+            b.ind += 1
+            self.class_forms.setdefault(ks.name, []).append({"form": "local", "file": t.relpath, "name": ks.name})
+            cs2 = self.site("constructor-inherited-init", f"{kb.name}.__init__", recv=ks.name)
+            b.add(f"o = {ks.name}(1)", cs2)
+            cbsite["deps"] += [cs1, cs2]          # the bound method's receiver comes from these instantiations
+            b.ind -= 1
+            b.add(f"h = o.hook_{hid}")
+            arg = "h"
+        elif how == "list-element":
+            fa, fb = two_functions()
+            b.add(f"l = [{fb}, {fa}]")          # flag 1 -> index 1 = first candidate, flag 0 -> index 0 = second candidate
+            b.add("h = l[flag]")
+            arg = "h"
+        elif how == "dict-element":
+            fa, fb = two_functions()
+            b.add(f"d = {{'ka': {fa}, 'kb': {fb}}}")
+            b.add("if flag > 0:")
+            b.ind += 1; b.add("key = 'ka'"); b.ind -= 1
+            b.add("else:")
+            b.ind += 1; b.add("key = 'kb'"); b.ind -= 1
+            b.add("h = d[key]")
+            arg = "h"
+        else:
+            mk = Func(self.name("factory"), ["flag"], t)
+            t.decls.append(mk)
+            for which in ("first", "second"):
+                inner = Func(self.name("inner"), ["x"], t, parent=mk)
+                inner.ret = "x + 1"
+                mk.nested.append(inner)
+                self.cand_role[inner.qual] = which
+            mk.body.add("if flag > 0:")
+            mk.body.ind += 1; mk.body.add(f"return {mk.nested[0].name}"); mk.body.ind -= 1
+            mk.ret = mk.nested[1].name
+            ms = self.site("direct", mk.qual)
+            b.add(f"h = {mk.name}(flag)", ms)
+            cbsite["deps"].append(ms)
+            arg = "h"
+        b.add(f"r = {app.name}({arg}, {self.arg(pctx)})", self.site("direct", app.qual))
+        pick.ret = "r"
+        t.decls.append(pick)
+        expr, form = self.ref(ctx.mod, t, pick.name)
+        order = [1, 0] if rng.random() < 0.5 else [0, 1]
+        for fl in order:
+            self.call_line(ctx, f"{expr}({fl})", self.nsite(form, pick.qual))
+
     def e_kwcallback(self, ctx, depth):
         """a callback handed over as a keyword argument next to 1-2 other keyword arguments, written in alphabetical or in another
         order, all-keyword / after a positional argument / to keyword-only parameters; the callee calls the callback"""
@@ -817,7 +921,8 @@ class Gen:
                                "base_form": c.base_form,
                                "refs": list(self.class_forms.get(c.name, ()))}
         return {"tag": self.tag, "files": files, "main": self.mods[0].dotted, "entry": entry, "sites": sites, "defs": defs,
-                "classes": classes, "value_access": dict(self.value_access), "import_interference": interference}
+                "classes": classes, "value_access": dict(self.value_access), "import_interference": interference,
+                "candidates": dict(self.cand_role)}
 
 
 def generate(seed, tag, **kw):
@@ -925,7 +1030,7 @@ def provenance_tag(project, site, callee_qual, recv_classes, under_try, caller_c
             if lt:
                 return lt
     # 4. the function value
-    if kind in VALUE_KINDS or kind.startswith("callback-keyword-argument"):
+    if kind in VALUE_KINDS or kind.startswith(("callback-keyword-argument", "callback-with-two-candidate-values")):
         vref = project.get("value_access", {}).get(callee_qual)
         t = _ref_tag(project, vref, "function-value")
         if t and vref.get("form") == "module-attribute" and not _interference(project, vref):
@@ -946,6 +1051,9 @@ def event_kind(project, site, callee_qual, recv_classes=(), under_try=False, cal
     be found (provenance_tag) that tag replaces the control refinement, so that the vocabulary stays closed."""
     kind = site["kind"]
     classes = project["classes"]
+    if kind.startswith("callback-with-two-candidate-values"):
+        which = project.get("candidates", {}).get(callee_qual) or project.get("candidates", {}).get(callee_qual.replace("constructor", "__init__"))
+        kind = f"{kind}/{which or 'unknown'}-candidate-runs"
     ctrl = (f"[{site['ctrl']}]" if site["ctrl"] == "after-try" else f"[in-{site['ctrl']}]") if site.get("ctrl") else ""
     ptag = provenance_tag(project, site, callee_qual, recv_classes, under_try, caller_cls)
     # kinds whose resolution needs more than finding a name and walking the class hierarchy (a value returned by a call, a value
